@@ -14,6 +14,7 @@ type CrashOutcome struct {
 		Commits int            `json:"commits"`
 		Points  map[string]int `json:"points"`
 		Acks    int            `json:"acks"`
+		Async   int            `json:"async"`
 	} `json:"count,omitempty"`
 	Acked     int         `json:"acked"`
 	Died      bool        `json:"died"`
@@ -68,6 +69,10 @@ func RunCrash(r *Run, name string, workerArgs []string, bases []map[string]inter
 		for k := 1; k <= out.Count.Commits+1; k++ {
 			tasks = append(tasks, mk(bases[i], map[string]interface{}{"commit": k}))
 			meta = append(meta, killTask{i, "commit", fmt.Sprintf("commit#%d", k)})
+		}
+		for k := 1; k <= out.Count.Async; k++ {
+			tasks = append(tasks, mk(bases[i], map[string]interface{}{"async": k}))
+			meta = append(meta, killTask{i, "async", fmt.Sprintf("async#%d", k)})
 		}
 		var names []string
 		for n := range out.Count.Points {
@@ -147,7 +152,7 @@ func RunCrash(r *Run, name string, workerArgs []string, bases []map[string]inter
 					commitKeys[m.base] = map[string]bool{}
 				}
 				commitKeys[m.base][out.Key] = true
-			} else {
+			} else if m.kind == "point" {
 				if pointKeys[m.base] == nil {
 					pointKeys[m.base] = map[string]string{}
 				}
